@@ -38,6 +38,14 @@ async fn handle_connection(mut socket: TcpStream, controller: Arc<NodeController
 
         let frame_len = u32::from_le_bytes(len_buf) as usize;
         if frame_len == 0 || frame_len > MAX_FRAME_LEN {
+            // Consume the announced body so the next read starts at a frame boundary
+            let mut remaining = frame_len;
+            let mut sink = [0u8; 8192];
+            while remaining > 0 {
+                let n = remaining.min(sink.len());
+                socket.read_exact(&mut sink[..n]).await?;
+                remaining -= n;
+            }
             send_response(&mut socket, "ERR invalid frame length").await?;
             continue;
         }
